@@ -31,13 +31,14 @@ COVER = [
 ]
 
 SPEC = {
-    "lean_modules": ["SemaModel.C11.Props"],
+    "lean_modules": ["SemaModel.C11.Props", "SemaModel.C11.CallSites"],
     "lean_dirs": ["SemaModel/C11"],
     "harness": "c11",
     "level": "proof",
     "tie": "T2: tools/facts_c11 regenerates the lock skeleton of manager.go (lock/unlock/TryRLock/map/callback/defer/yield order, if-conditions) and Props.lean proves it equal to the skeleton the model was written against; T3: forced schedules generated from the Lean model are executed on the real Manager at the verifYield points (quick: random walks incl. blocked-thread probes and evictions; thorough: every transition of the reachable state graph of the listed small configurations) and observation texts of model and implementation are compared; the property oracle is evaluated on the real traces",
     "required_theorems": [
         "Sema.C11.C11_skeleton_with", "Sema.C11.C11_skeleton_commit", "Sema.C11.C11_skeleton_prune", "Sema.C11.C11_skeleton_release",
+        "Sema.C11.C11_callsites_commit",
         "Sema.C11.C11_mutex", "Sema.C11.C11_mutex_overlap", "Sema.C11.C11_private_copy", "Sema.C11.C11_reader_never_blocks_on_cache",
         "Sema.C11.C11_no_scrapped", "Sema.C11.C11_checked_before_handout", "Sema.C11.C11_dirty_is_scrapped",
         "Sema.C11.C11_failed_dropped", "Sema.C11.C11_replaced_dropped",
@@ -57,7 +58,7 @@ SPEC = {
         "Go memory model: data races on the plain fields scrapped / lastAccessed / item are outside the model (runtime findings, not decided here)",
     ],
     "assumptions": [
-        "Commit is called once per transaction, after all goroutines of the transaction have returned from With (shard.go joins the dispatch goroutines first)",
+        "Commit is called once per transaction, after all goroutines of the transaction have returned from With (shard.go joins the dispatch goroutines first), with argument true exactly when the storage transaction failed: the call-site facts regenerated from shard/shard.go (tools/facts_c07) are pinned by C11_callsites_commit; when that pin breaks the search drives the real shard through C07's fault enumeration and reports a cache of a failed batch that is still in the manager / still answers",
         "C11_progress: at most one transaction is inside its writing phase at a time (bbolt's single read-write transaction; flag dbLock of the model). The hypothesis is forced: C11_deadlock_witness_without_dblock is the recorded negation without it (two concurrent writers, caches in opposite order, both parked at xObjLock); the same workload (`max=1 db=0 wl=w0,w1/w1,w0`) is driven through the real Manager in the thorough tier",
         "'a later transaction rebuilds it from committed storage': the model has no storage. Proved: the access that finds no entry constructs a FRESH object (C11_rebuilt_fresh), keeps it through the new-cache branch under any interleaving / eviction (C11_rebuilt_kept, C11_rebuilt_frame, C11_rebuilt_own) and runs its callback on it. That createFn reads the committed bucket is bbolt + the constructors (C08)",
     ],
@@ -201,4 +202,29 @@ def search(ctx):
         if any(k.get("status") == "open" and re.fullmatch(k["signature"], f["signature"]) for k in known):
             continue
         return {"signature": f["signature"], "what": f["what"], "replay": f["replay"]}
+    return _search_callsites(ctx)
+
+
+def _search_callsites(ctx):
+    """shard level: C07's fault enumeration on the real shard; a batch that failed and whose shared caches
+    are still registered in the manager, or still answer queries, is a failed transaction's cache handed
+    out again (C11's second clause at the call sites of shard.go)"""
+    R = ctx["runner"]
+    ok, o, hbin = R.build_harness("c07")
+    if not ok:
+        return None
+    d = os.path.join(ctx["rundir"], "search-callsites")
+    os.makedirs(d, exist_ok=True)
+    try:
+        R.sh([hbin, "-seed", str(ctx["seed"]), "-out", d, "-tier", "quick"], env=R.GOENV, timeout=900)
+    except subprocess.TimeoutExpired:
+        return None
+    sp = os.path.join(d, "stats.json")
+    if not os.path.exists(sp):
+        return None
+    for f in json.load(open(sp)).get("oracle_failures", []):
+        if re.match(r"(cache-retained-after-error|running-differs-after-error):", f["signature"]):
+            return {"signature": "callsite:" + f["signature"],
+                    "what": "shard level (go/cmd/c07 fault enumeration on the real shard): " + f["what"] + " — a shared cache touched by a failed transaction was not discarded",
+                    "replay": f["replay"]}
     return None
